@@ -138,6 +138,7 @@ def shard_main(pid, tier, seed, i, n):
         from . import env  # noqa  (imports lomond from the tree under test)
         from . import simnet
         simnet.check_patch_points()
+        simnet.selftest_patch_points()
         mod = importlib.import_module('vf.props.' + pid.lower())
         budget = float(os.environ.get('VERIF_SHARD_BUDGET_S', mod.BUDGET_S[tier]))
         deadline = t0 + budget
